@@ -171,8 +171,8 @@ class CondSpec(SeqSpec):
                 nsignals += 1
                 if len(eligible) - debt > 0:
                     debt += 1
-                    if nsignals >= 2 and len([w for w in eligible if w not in past_exit]) >= 2:
-                        multi_in_window = True
+                    if debt >= 2:
+                        multi_in_window = True    # two wakeups owed at once to waiters that are not (known to be) parked
             elif k == "call-broadcast":
                 nbroadcast += 1
                 must_wake |= eligible
